@@ -64,7 +64,8 @@ def install_io(ex: Explorer) -> None:
 
     def wait_closed(I: Interp, recv: V, args: list[V], kwargs: dict[str, V]) -> V:
         def go() -> V:
-            if I.choose([z3.BoolVal(True)] * 2) == 1:
+            # closing an already closed writer is a no-op (trusted idempotence of StreamWriter)
+            if I.ghost.get("writer_closed", 0) <= 1 and I.choose([z3.BoolVal(True)] * 2) == 1:
                 I.raise_py(ConnectionResetError, "peer reset while closing")
             return NONE
         return coro(go)
